@@ -944,7 +944,51 @@ class Exec:
             return self.inline(st, tl, args, depth)
         if not c.safe:
             st.events.append(('unsafe-call', c.key))
+        folded = self.fold_call(c, args)
+        if folded is not None:
+            return [(st, folded, None)]
         return [(st, ('call', c.key, tuple(args), None), None)]
+
+    def fold_call(self, c, args):
+        """constant folding of a few pure std functions on constant arguments (floats; ASCII strings only)"""
+        p = c.res_path or c.path
+
+        def peel(t):
+            while t[0] in ('ref', 'deref'):
+                t = t[2] if t[0] == 'ref' else t[1]
+            return t
+        if len(args) == 1:
+            a = peel(args[0])
+            if a[0] == 'const' and is_float(a[1]) and a[2] is not None:
+                v = const_value(a)
+                if p.endswith('>::is_finite'):
+                    return mk_const('bool', not (math.isinf(v) or v != v))
+                if p.endswith('>::is_nan'):
+                    return mk_const('bool', v != v)
+                if p.endswith('>::is_infinite'):
+                    return mk_const('bool', math.isinf(v))
+                if p.endswith('>::abs'):
+                    return mk_const(a[1], abs(v))
+            if a[0] == 'str' and a[1].isascii():
+                x = a[1]
+                if p.endswith('str::<impl str>::is_empty') or p.endswith('string::String::is_empty'):
+                    return mk_const('bool', x == '')
+                if p.endswith('str::<impl str>::trim'):
+                    return ('str', x.strip(' \t\n\r\x0b\x0c'))
+                if p.endswith('str::<impl str>::to_lowercase'):
+                    return ('str', x.lower())
+                if p.endswith('str::<impl str>::to_uppercase'):
+                    return ('str', x.upper())
+                if p.endswith('str::<impl str>::len') or p.endswith('string::String::len'):
+                    return mk_const('usize', len(x))
+                if c.trait and c.trait.split('::')[-1] in ('ToString', 'ToOwned', 'Into', 'From', 'Deref') and c.name in ('to_string', 'to_owned', 'into', 'from', 'deref'):
+                    if 'str' in c.full or 'String' in c.full:
+                        return ('str', x)
+                if p.endswith('str::<impl str>::chars'):
+                    return ('strchars', x)
+            if a[0] == 'strchars' and c.name == 'count':
+                return mk_const('usize', len(a[1]))
+        return None
 
     def _residual_identity(self, c):
         # `impl FromResidual<Result<Infallible, E>> for Result<T, F> where F: From<E>`; identity iff E == F.
